@@ -23,6 +23,12 @@ Record cop := {
 
 Definition CR_ := (cop * list cev)%type.
 
+Definition set_fread (c : cop) (b : bool) : cop :=
+  {| c_content := c_content c; c_seq := c_seq c; c_pos := c_pos c; c_buf := c_buf c; c_src_closed := c_src_closed c;
+     f_open_src := f_open_src c; f_open_dst := f_open_dst c; f_seek := f_seek c; f_read := b; f_write := f_write c;
+     c_bs := c_bs c; c_from := c_from c; c_to := c_to c;
+     c_stopped := c_stopped c; c_pending := c_pending c; c_connected := c_connected c |}.
+
 Definition set_fwrite (c : cop) (b : bool) : cop :=
   {| c_content := c_content c; c_seq := c_seq c; c_pos := c_pos c; c_buf := c_buf c; c_src_closed := c_src_closed c;
      f_open_src := f_open_src c; f_open_dst := f_open_dst c; f_seek := f_seek c; f_read := f_read c; f_write := b;
@@ -87,7 +93,8 @@ Definition c_on_channel_finished (c : cop) : CR_ :=
 
 Inductive cop_op := CStart | CTurn | CStop | CFeed (b : bytes) | CFinish | CSetBs (n : Z)
                     | CDestFlush (n : Z)      (* the destination reports n buffered bytes as written: nothing to the copier *)
-                    | CDestDie.               (* the destination goes away: every later write fails *)
+                    | CDestDie                (* the destination goes away: every later write fails *)
+                    | CSrcClose.              (* the source is closed under the copier: every later read fails *)
 
 (* QIODeviceCopier::setBufferSize: the block size from the next block on *)
 Definition set_bs (c : cop) (n : Z) : cop :=
@@ -114,6 +121,7 @@ Definition c_step (c : cop) (o : cop_op) : CR_ :=
   | CSetBs n => (set_bs c n, [])
   | CDestFlush _ => (c, [])
   | CDestDie => (set_fwrite c true, [])
+  | CSrcClose => (set_fread c true, [])
   end.
 
 Fixpoint c_run (k : Z) (c : cop) (ops : list cop_op) : CR_ :=
@@ -139,6 +147,7 @@ Definition dec_cop_op (v : value) : option cop_op :=
   | VL [VI 5; VI n] => Some (CSetBs n)
   | VL [VI 6; VI n] => Some (CDestFlush n)
   | VL [VI 7] => Some CDestDie
+  | VL [VI 8] => Some CSrcClose
   | _ => None
   end.
 Fixpoint dec_cop_ops (l : list value) : option (list cop_op) :=
